@@ -42,7 +42,7 @@ Section Frame.
   Lemma step_frame : forall s a s' o, step c s a = (s', o) -> cnt R (pubs s') = cnt R (pubs s).
   Proof.
     intros s a s' o H. unfold step in H.
-    destruct a as [k|ms|n v|p|n|k v|v|rq].
+    destruct a as [k|ms|n v|p|n|k v|v|rq|tk zero po].
     - eapply do_replyk_frame; eassumption.
     - destruct (ms <? 0)%Z; inversion H; subst; [reflexivity|].
       cbn [publish pubs]. rewrite cnt_app, cnt_pre. lia.
@@ -60,6 +60,9 @@ Section Frame.
       assert (HS : cnt R (pubs (St (replied s) (status s) (rhdr s) (pubs s ++ ms) (log s ++ ls))) = cnt R (pubs s)).
       { cbn [pubs]. rewrite cnt_app, E. lia. }
       destruct rq; [destruct e|]; inversion H; subst; exact HS.
+    - destruct (is_nil (if tk then q_token (c_d c) else q_params (c_d c)));
+        [inversion H; subst; reflexivity|].
+      destruct po; inversion H; subst; reflexivity.
   Qed.
 
   Lemma run_script_frame : forall sc s s' o,
